@@ -369,7 +369,8 @@ def check_program(data: dict, lab: Labels) -> None:
 
 
 def st_program(ctx: Ctx):
-    g = T.TreeGen(leaves=ctx.pick(7, 10), origin_rate=0.25, detach_rate=0.06, servals=True, frozensets=False)
+    g = T.TreeGen(leaves=ctx.pick(7, 10), origin_rate=0.25, detach_rate=0.06, servals=True, frozensets=False,
+                  extra_leaves=("Meta", "Meta"))
     s = st.integers(0, 60)
     small = st.integers(0, 15)
     action = st.tuples(st.sampled_from(["keep", "clone", "rewrite", "replace", "remove", "raise", "raise_nth", "raise_nth"]), small).map(list)
